@@ -25,7 +25,9 @@ sys.path.insert(0, os.path.join(HERE, ".deps"))
 
 STATS = {"executions": 0, "accepted": 0, "rejected_toml": 0, "rejected_validation": 0, "distinct_accepted": 0, "accepted_non_default": 0, "samples": []}
 _seen = set()
-_tmp = tempfile.mkdtemp(prefix="nssverif_fuzz_", dir="/dev/shm" if os.path.isdir("/dev/shm") else None)
+# (the parent check hands over a directory it removes afterwards: atexit handlers do not run under libFuzzer)
+_tmp = os.environ.get("NSSVERIF_FUZZ_TMP") or tempfile.mkdtemp(prefix="nssverif_fuzz_", dir="/dev/shm" if os.path.isdir("/dev/shm") else None)
+os.makedirs(_tmp, exist_ok=True)
 _p1 = os.path.join(_tmp, "in.toml")
 _p2 = os.path.join(_tmp, "out.toml")
 
